@@ -28,6 +28,7 @@ func main() {
 	dump := flag.String("dump", "", "debug: dump guards/calls of a function, e.g. node.commonValidation0 or stake.(*StakeCtrler).ValidateTrx")
 	explain := flag.String("explain", "", "re-derive the obligation recorded in a violation file")
 	noEvidence := flag.Bool("noevidence", false, "do not write evidence (used by the sensitivity corpus on scratch copies)")
+	list := flag.Bool("list", false, "with -noevidence: print every obligation, not only the bad ones")
 	flag.Parse()
 
 	vdir := *verif
@@ -108,6 +109,11 @@ func main() {
 		}
 		var code int
 		if *noEvidence {
+			if *list {
+				for _, o := range r.Obs {
+					fmt.Printf("OB %s %s: %s [%s]\n", o.Status, o.Key, strings.ReplaceAll(o.Detail, "\n", " "), strings.Join(o.Sites, ", "))
+				}
+			}
 			code = r.FinishNoEvidence(w)
 		} else {
 			code = r.Finish(w, vdir, seed, wall, false)
